@@ -257,11 +257,12 @@ def refactors(pids, apply=False):
     if out.strip():
         print("refusing: /repo has local modifications"); return 2
     for pid in pids:
-        outd = f"/tmp/seed/{pid}-out3"
-        if os.path.isdir(outd):
+        for outd in (f"/tmp/seed/{pid}-out3", f"/tmp/seed/{pid}-outR2"):
+            if not os.path.isdir(outd):
+                continue
             for sub in sorted(os.listdir(outd)):
                 srcd = os.path.join(outd, sub)
-                if os.path.isfile(os.path.join(srcd, "patch.diff")):
+                if sub.upper().startswith("R") and os.path.isfile(os.path.join(srcd, "patch.diff")):
                     dst = os.path.join(VERIF, "refactors", f"{pid}{sub.lower()}")
                     os.makedirs(dst, exist_ok=True)
                     for fn in ("patch.diff", "equiv.py", "meta.json"):
